@@ -19,8 +19,11 @@ def run_models(ctx):
         ctx.model_check("MC_C09Algebra", "MC_alg_quick3.cfg", name="mps-algebra L=3 depth 1", require_actions=ALG_ACTIONS, timeout=600)
     else:
         ctx.model_check("MC_C09Algebra", "MC_alg_thorough.cfg", name="mps-algebra L=3 depth 2", require_actions=ALG_ACTIONS, timeout=2400)
-        ctx.model_check("MC_C09Algebra", "MC_alg_gens.cfg", name="mps-algebra-all-generators-L2 (+ chain = LTensor!Denote)",
+        ctx.model_check("MC_C09Algebra", "MC_alg_gens.cfg", name="mps-algebra all generators L=2 depth 1",
                         require_actions=ALG_ACTIONS, timeout=1200)
+        # the chain contraction used by the invariants is LTensor!Denote of the labelled network
+        ctx.model_check("MC_C09Algebra", "MC_alg_chain.cfg", name="chain contraction = LTensor!Denote (L=2 depth 1)", timeout=1200)
+        ctx.model_check("MC_C09Algebra", "MC_alg_chain3.cfg", name="chain contraction = LTensor!Denote (L=3 generators)", timeout=1200)
         ctx.model_check("MC_C09Algebra", "MC_alg_gens4.cfg", name="generators-L4", timeout=1200)
     # 3. the models can fail: deliberate deviations must be caught by the named invariant
     tests = [("MC_C09Compress", "MC_cmp_mut_capskiplast.cfg", "BondCap", "cap ignored on the last bond of the sweep"),
